@@ -517,6 +517,55 @@ func worker(raw json.RawMessage) (json.RawMessage, error) {
 		}
 		res.Nontriv += int64(len(fam))
 		res.Sample = map[string]any{"family": "all strings of length<=4 over {00,A,a,b,7f,80,ff}", "size": len(fam)}
+	case "termkeys":
+		// the marker bytes of the text-index keys ('t' ... 's' for terms, 'd' for
+		// documents) are themselves legal term bytes: every string of length <= 5
+		// over them, and every candidate key of length <= 6
+		alpha := []byte{'t', 's', 'd', 'a', 0x00, 0xff}
+		var fam [][]byte
+		var rec func(prefix []byte, max int)
+		rec = func(prefix []byte, max int) {
+			fam = append(fam, append([]byte{}, prefix...))
+			if len(prefix) == max {
+				return
+			}
+			for _, c := range alpha {
+				rec(append(prefix, c), max)
+			}
+		}
+		rec(nil, 6)
+		image := map[string]string{}
+		for _, b := range fam {
+			if len(b) > 5 {
+				continue
+			}
+			s := string(b)
+			tk := text.VerifTermKey(s)
+			if o, dup := image[string(tk)]; dup {
+				res.v("term-key-collision", "terms %q and %q share key %x", o, s, tk)
+			}
+			image[string(tk)] = s
+			if t, ok := text.VerifTermFromKey(tk); !ok || t != s {
+				res.v("term-key-roundtrip", "term %q -> %x -> %q,%v", s, tk, t, ok)
+			}
+			if _, ok := text.VerifDocumentIdFromKey(tk); ok && !(len(tk) == 9 && tk[0] == 'd') {
+				res.v("term-key-confused-with-doc-key", "term %q", s)
+			}
+			res.Evals++
+		}
+		for _, k := range fam {
+			t, ok := text.VerifTermFromKey(k)
+			want, in := image[string(k)]
+			switch {
+			case ok && !in && len(k) <= 6 && !bytes.Equal(text.VerifTermKey(t), k):
+				res.v("term-key-decoder-accepts-a-non-key", "key %x decodes to %q whose key is %x", k, t, text.VerifTermKey(t))
+			case in && (!ok || t != want):
+				res.v("term-key-roundtrip", "key %x of term %q decodes to %q,%v", k, want, t, ok)
+			}
+			res.Evals++
+		}
+		res.Nontriv += int64(len(image))
+		res.Sample = map[string]any{"family": "all terms of length<=5 and all candidate keys of length<=6 over the key marker bytes {t,s,d} plus {a,00,ff}", "terms": len(image), "keys": len(fam)}
 	case "ids":
 		ids := boundaryIds()
 		seen := map[string]string{}
@@ -661,7 +710,7 @@ func seq(a, b int) []int {
 }
 
 func master(cfg *harness.Config, rep *harness.Report) {
-	rep.Rule = "families: int64 ±2^k+δ (k<64,|δ|<=2) with all pairs; float64 all 2046 exponents x sign x 4 mantissa corners + zeros, subnormals, infinities in value order (adjacent pairs => all pairs by transitivity); all strings of length<=4 over 7 bytes; boundary uint64 ids x all 256 key suffixes; boundary uuids x 256 suffixes; edge lists of length 0..64 and 4096; float32 bit patterns (quick: 2^20 patterns with stride 4096 covering every sign/exponent and 12 mantissa bits, thorough: all 2^32) packed into vectors of length 1..4096; all range/prefix scans over 15-value families on memstore and bbolt; thorough adds all int64 of the form v<<s (v any int32, s in {0,31}) and every non-NaN float32 widened to float64. non-trivial = sign/exponent boundary crossed between neighbours, proper sub-range scans, distinct ids"
+	rep.Rule = "families: int64 ±2^k+δ (k<64,|δ|<=2) with all pairs; float64 all 2046 exponents x sign x 4 mantissa corners + zeros, subnormals, infinities in value order (adjacent pairs => all pairs by transitivity); all strings of length<=4 over 7 bytes; text-index term keys for all terms of length<=5 over the key marker bytes {t,s,d,a,00,ff} and the decoder on all candidate keys of length<=6; boundary uint64 ids x all 256 key suffixes; boundary uuids x 256 suffixes; edge lists of length 0..64 and 4096; float32 bit patterns (quick: 2^20 patterns with stride 4096 covering every sign/exponent and 12 mantissa bits, thorough: all 2^32) packed into vectors of length 1..4096; all range/prefix scans over 15-value families on memstore and bbolt; thorough adds all int64 of the form v<<s (v any int32, s in {0,31}) and every non-NaN float32 widened to float64. non-trivial = sign/exponent boundary crossed between neighbours, proper sub-range scans, distinct ids"
 	rep.Assumptions = []string{"values outside the families (most int64/float64 bit patterns) are covered only in the thorough sweeps stated in the rule", "native little-endian machine: the raw float32 codec is the one selected at init"}
 	var jobs []json.RawMessage
 	add := func(j job) {
@@ -675,7 +724,7 @@ func master(cfg *harness.Config, rep *harness.Report) {
 		}
 		add(j)
 	} else {
-		for _, k := range []string{"int-family", "float-family", "strings", "ids", "scans"} {
+		for _, k := range []string{"int-family", "float-family", "strings", "termkeys", "ids", "scans"} {
 			add(job{Kind: k})
 		}
 		if cfg.Quick() {
